@@ -453,6 +453,45 @@ class Live(object):
             return ('raise', exc_kind(ex))
         return self.val(r)
 
+    def pre_ok(self, op):
+        """C04's precondition on the real objects: every element handed to an append/insert call is currently
+        detached (no parentNode, in no block list, not the parser's root) and does not contain the target."""
+        name = op[0]
+        args = []
+        if name == 'appendChild' and op[2] is not None:
+            args = [op[2]]
+        elif name in ('appendBlock', 'insertBefore', 'insertAfter') and not isinstance(op[2], str):
+            args = [op[2]]
+        elif name == 'appendBlocks':
+            args = [b for b in op[2] if not isinstance(b, str)]
+        if not args:
+            return True
+        if len(set(args)) != len(args):
+            return False
+        target = self.els[op[1]]
+        held = set()
+        for _, e in self.items():
+            for b in e.blocks:
+                if isinstance(b, self.Tag):
+                    held.add(b.uid)
+        for a in args:
+            c = self.els[a]
+            if c is None or c.parentNode is not None or c.uid in held:
+                return False
+            if self.parser is not None and c is self.parser.getRoot():
+                return False
+            seen = set()
+            stack = [c]
+            while stack:
+                x = stack.pop()
+                if x.uid in seen:
+                    return False
+                seen.add(x.uid)
+                if x is target:
+                    return False
+                stack.extend(b for b in x.blocks if isinstance(b, self.Tag))
+        return True
+
     # ---- dumping fields
     def bid(self, b):
         if isinstance(b, str):
